@@ -12,8 +12,8 @@ use redirectionio::RouterConfig;
 use serde_json::{json, Value};
 use std::collections::{BTreeMap, HashSet};
 
-pub const PATHS: &[&str] = &["/a", "/A", "/a b", "/a%20b", "/é", "/a\"q", "/a<b>", "/a+b"];
-pub const PARAMS: &[&str] = &["a=1", "b=2", "a=3", "c=", "d", "e=x%20y", "f=x+y", "g=é", "utm_source=z", "ref=r", "B=2", "h=1%2B2", "i=x%26", "é=1", "z=9", "a2=5"];
+pub const PATHS: &[&str] = &["/a", "/A", "/a b", "/a%20b", "/é", "/a\"q", "/a<b>", "/a+b", "/a{b}", "/a`b", "/a|c"];
+pub const PARAMS: &[&str] = &["a=1", "b=2", "a=3", "c=", "d", "e=x%20y", "f=x+y", "g=é", "utm_source=z", "ref=r", "B=2", "h=1%2B2", "i=x%26", "é=1", "z=9", "a2=5", "hsCta=t"];
 
 #[derive(Clone, Debug, serde::Serialize, serde::Deserialize)]
 pub struct Case {
@@ -38,6 +38,8 @@ pub fn config(flags: u32, marketing_set: usize) -> RouterConfig {
         let mut s = HashSet::new();
         s.insert("utm_source".to_string());
         s.insert("ref".to_string());
+        // a configured name with upper-case letters (names are compared as configured, whatever the case mode)
+        s.insert("hsCta".to_string());
         c.marketing_query_params = s;
     }
     c
